@@ -29,6 +29,13 @@ Lemma ob_mode_strings : mode_strings = mode_consts.
 Proof. vm_compute. reflexivity. Qed.
 Lemma ob_url_mode_alias : url_mode_alias = [(b "PROXY", b "HTTP")].
 Proof. vm_compute. reflexivity. Qed.
+(* parseProxy: trims, knows the literal DIRECT, demands a 16-bit port number, rejects an empty host and a
+   host with a blank or control character; parseMode falls back to DIRECT for an unrecognised keyword *)
 Lemma ob_parse_proxy_shape :
-  parse_proxy_trims = true /\ parse_proxy_has_direct_literal = true /\ parse_proxy_validates_port = true.
+  parse_proxy_trims = true /\ parse_proxy_has_direct_literal = true /\
+  parse_proxy_validates_port = true /\ parse_proxy_validates_host = true.
 Proof. vm_compute. repeat split; reflexivity. Qed.
+Lemma ob_parse_mode_default : parse_mode_has_default = true /\ parse_mode_default = b "DIRECT".
+Proof. vm_compute. split; reflexivity. Qed.
+Lemma ob_mode_direct : mode_direct = b "DIRECT".
+Proof. vm_compute. reflexivity. Qed.
